@@ -13,7 +13,7 @@ import (
 )
 
 func init() {
-	for _, id := range []string{"C01", "C02", "C03", "C04"} {
+	for _, id := range []string{"C01", "C02", "C03", "C04", "C05", "C06"} {
 		id := id
 		core.Register(id, "model_checking", func(c *core.Ctx) error { return runTL1(c, id) })
 	}
@@ -75,6 +75,10 @@ type valPayload struct {
 	TL1B   []int  `json:"tl1b"`
 	HasTL2 bool   `json:"hastl2"`
 	TL2    []int  `json:"tl2"`
+	JSON   *JT    `json:"json"`
+	Alt    *JT    `json:"alt"`
+	M      string `json:"m"`
+	Bad    bool   `json:"bad"`
 	Boxed  bool   `json:"boxed"`
 	B      []int  `json:"b"`
 	Dec    struct {
@@ -107,12 +111,15 @@ func runTL1(c *core.Ctx, prop string) error {
 		{Name: "probe", Files: []string{probe("probe1.tl")}, TL2: "", Sanity: false},
 		{Name: "cases", Files: []string{tls("cases.tl")}, TL2: "*", Sanity: false, BytesVers: "cases_bytes."},
 	}
-	k, kmut := c.Pick(2, 3), 0
+	k, kmut, kjson := c.Pick(2, 3), 0, 0
 	if prop == "C02" {
 		k, kmut = c.Pick(1, 2), c.Pick(2, 3)
 	}
+	if prop == "C06" {
+		k, kjson = c.Pick(2, 3), c.Pick(3, 4)
+	}
 	for _, cp := range corpora {
-		if err := runCorpusTL1(c, prop, cp, k, kmut); err != nil {
+		if err := runCorpusTL1(c, prop, cp, k, kmut, kjson); err != nil {
 			return err
 		}
 	}
@@ -121,7 +128,7 @@ func runTL1(c *core.Ctx, prop string) error {
 	return nil
 }
 
-func runCorpusTL1(c *core.Ctx, prop string, cp Corpus, k, kmut int) error {
+func runCorpusTL1(c *core.Ctx, prop string, cp Corpus, k, kmut, kjson int) error {
 	b, err := Build(c, cp)
 	if err != nil {
 		return err
@@ -140,7 +147,7 @@ func runCorpusTL1(c *core.Ctx, prop string, cp Corpus, k, kmut int) error {
 	}
 	c.Logf("corpus %s: %d top-level TL1 types, K=%d KMut=%d", cp.Name, len(tops), k, kmut)
 	var firstErr error
-	nVal, nBytes, acc, rej, unk := 0, 0, 0, 0, 0
+	nVal, nBytes, nAlt, acc, rej, unk := 0, 0, 0, 0, 0, 0
 	onEmit := func(raw json.RawMessage) {
 		if firstErr != nil {
 			return
@@ -174,6 +181,26 @@ func runCorpusTL1(c *core.Ctx, prop string, cp Corpus, k, kmut int) error {
 			}
 			if nVal%211 == 1 {
 				c.Sample(map[string]any{"corpus": cp.Name, "type": p.Tn, "tl1": hexs(p.TL1), "tl1_boxed": hexs(p.TL1B), "tl2": hexs(p.TL2)})
+			}
+			return
+		}
+		if p.Kind == "json" {
+			nAlt++
+			fs, err := replayAlt(c, b, &p)
+			if err != nil {
+				firstErr = err
+				return
+			}
+			for _, f := range fs {
+				if classOf[prop][f.class] {
+					c.Violate(fmt.Sprintf("%s/%s/%s/%s", f.class, cp.Name, p.Tn, f.key), fmt.Sprintf("type %s: %s", p.Tn, f.what),
+						map[string]any{"corpus": cp, "payload": p})
+				}
+			}
+			if nAlt%397 == 1 {
+				var sb strings.Builder
+				_ = p.Alt.Render(&sb)
+				c.Sample(map[string]any{"corpus": cp.Name, "type": p.Tn, "mode": p.M, "alternative_json": sb.String()})
 			}
 			return
 		}
@@ -225,7 +252,7 @@ func runCorpusTL1(c *core.Ctx, prop string, cp Corpus, k, kmut int) error {
 	res, err := c.TLC(core.TLCOpts{Module: "MC_Codec", Cfg: "MC_Codec.cfg", Workers: 8, Timeout: 20 * time.Minute,
 		Files:  map[string][]byte{"SchemaData.tla": b.SchemaModule(tops)},
 		OnEmit: onEmit,
-		Consts: map[string]string{"SANITY": tlaBool(cp.Sanity), "MAXLEN": "2", "LONGSTR": "{}", "K": strconv.Itoa(k), "KMUT": strconv.Itoa(kmut)}})
+		Consts: map[string]string{"SANITY": tlaBool(cp.Sanity), "MAXLEN": "2", "LONGSTR": "{}", "K": strconv.Itoa(k), "KMUT": strconv.Itoa(kmut), "KJSON": strconv.Itoa(kjson)}})
 	if err != nil {
 		return err
 	}
@@ -242,6 +269,7 @@ func runCorpusTL1(c *core.Ctx, prop string, cp Corpus, k, kmut int) error {
 	c.Add("distinct_nontrivial", res.Distinct)
 	c.Add("values", nVal)
 	c.Add("byte_strings", nBytes)
+	c.Add("alternative_json_forms", nAlt)
 	c.Add("impl_accepted", acc)
 	c.Add("impl_rejected", rej)
 	c.Add("outside_model", unk)
@@ -272,10 +300,12 @@ var classOf = map[string]map[string]bool{
 	"C02": {"tl1": true},
 	"C03": {"tl2": true},
 	"C04": {"conv": true},
+	"C05": {"json": true},
+	"C06": {"jsonalt": true},
 }
 
 func wantVal(prop string, k int) bool {
-	if prop == "C02" {
+	if prop == "C02" || prop == "C06" {
 		return k == 0
 	}
 	return true
@@ -317,6 +347,9 @@ func replayVal(c *core.Ctx, b *Built, p *valPayload) ([]finding, error) {
 		}
 		if !boxed {
 			jsonFromTL1 = s.Dump.JSON
+			if p.JSON != nil {
+				checkJSON(c, b, p, s.Dump.JSON, add)
+			}
 			if p.HasTL2 && s.Dump.HasTL2 && !eqInts(s.Dump.TL2, p.TL2) {
 				add("tl2", "write2/"+hexs(in), fmt.Sprintf("value read from TL1 %s is written in TL2 as %s, spec %s", hexs(in), hexs(s.Dump.TL2), hexs(p.TL2)))
 			}
@@ -348,6 +381,82 @@ func replayVal(c *core.Ctx, b *Built, p *valPayload) ([]finding, error) {
 			if s.Dump.JSON != jsonFromTL1 {
 				add("conv", "json-differs/"+hexs(p.TL1), fmt.Sprintf("JSON after TL1 decode %s, after TL2 decode %s", jsonFromTL1, s.Dump.JSON))
 			}
+		}
+	}
+	return fs, nil
+}
+
+// checkJSON: the JSON written by the implementation must be valid JSON, equal the
+// specified tree, and read back into a value with the same three encodings (C05).
+func checkJSON(c *core.Ctx, b *Built, p *valPayload, text string, add func(class, key, what string)) {
+	key := "json/" + hexs(p.TL1)
+	got, err := parseJSON(text)
+	if err != nil {
+		add("json", key, fmt.Sprintf("written JSON %s is invalid: %v", text, err))
+		return
+	}
+	if err := p.JSON.Match(got, "$"); err != nil {
+		var sb strings.Builder
+		_ = p.JSON.Render(&sb)
+		add("json", key, fmt.Sprintf("written JSON %s differs from the specified %s: %v", text, sb.String(), err))
+		return
+	}
+	r, err := b.script(p.Tn, false, map[string]any{"op": "readj", "text": text})
+	if err != nil {
+		add("json", key, "driver: "+err.Error())
+		return
+	}
+	s := r.Steps[0]
+	c.Add("evaluations", 1)
+	switch {
+	case s.Panic != "":
+		add("json", key, "panic reading own JSON "+text+": "+s.Panic)
+	case s.Err != "":
+		add("json", key, fmt.Sprintf("own JSON %s rejected: %s", text, s.Err))
+	default:
+		if s.Dump.JSON != text {
+			add("json", key, fmt.Sprintf("JSON %s reads back and is written as %s", text, s.Dump.JSON))
+		}
+		if s.Dump.TL1Err != "" || !eqInts(s.Dump.TL1, p.TL1) {
+			add("json", key, fmt.Sprintf("JSON %s reads back to TL1 %s %s, original %s", text, hexs(s.Dump.TL1), s.Dump.TL1Err, hexs(p.TL1)))
+		}
+		if p.HasTL2 && s.Dump.HasTL2 && !eqInts(s.Dump.TL2, p.TL2) {
+			add("json", key, fmt.Sprintf("JSON %s reads back to TL2 %s, original %s", text, hexs(s.Dump.TL2), hexs(p.TL2)))
+		}
+	}
+}
+
+// replayAlt: an alternative spelling must decode to the same value as the canonical one (C06).
+func replayAlt(c *core.Ctx, b *Built, p *valPayload) ([]finding, error) {
+	var fs []finding
+	var sb strings.Builder
+	if err := p.Alt.Render(&sb); err != nil {
+		return nil, err
+	}
+	text := sb.String()
+	key := "alt-" + p.M + "/" + text
+	r, err := b.script(p.Tn, false, map[string]any{"op": "readj", "text": text})
+	if err != nil {
+		return nil, err
+	}
+	s := r.Steps[0]
+	c.Add("evaluations", 1)
+	switch {
+	case s.Panic != "":
+		fs = append(fs, finding{"jsonalt", key, "panic: " + s.Panic})
+	case p.Bad:
+		if s.Err == "" {
+			fs = append(fs, finding{"jsonalt", key, fmt.Sprintf("invalid form (%s) %s accepted; written back as %s", p.M, text, s.Dump.JSON)})
+		}
+	case s.Err != "":
+		fs = append(fs, finding{"jsonalt", key, fmt.Sprintf("documented alternative form (%s) %s rejected: %s", p.M, text, s.Err)})
+	default:
+		if s.Dump.TL1Err != "" || !eqInts(s.Dump.TL1, p.TL1) {
+			fs = append(fs, finding{"jsonalt", key, fmt.Sprintf("alternative form (%s) %s decodes to TL1 %s %s, canonical form gives %s", p.M, text, hexs(s.Dump.TL1), s.Dump.TL1Err, hexs(p.TL1))})
+		} else if p.HasTL2 && s.Dump.HasTL2 && !eqInts(s.Dump.TL2, p.TL2) {
+			fs = append(fs, finding{"jsonalt", key, fmt.Sprintf("alternative form (%s) %s decodes to TL2 %s, canonical form gives %s", p.M, text, hexs(s.Dump.TL2), hexs(p.TL2))})
+		} else if got, err := parseJSON(s.Dump.JSON); err != nil || p.JSON.Match(got, "$") != nil {
+			fs = append(fs, finding{"jsonalt", key, fmt.Sprintf("alternative form (%s) %s is written back as %s, not the canonical form", p.M, text, s.Dump.JSON)})
 		}
 	}
 	return fs, nil
